@@ -89,6 +89,8 @@ Record out := mkOut {
   o_hc : N * N;                   (* Health().ConsecutiveFailures / ConsecutiveSuccesses *)
   o_hev : N;                      (* health event handed to the OnHealthChange handlers:
                                      0 none, 1 partner_down, 2 partner_up, 3 check_failed, 4 check_succeeded *)
+  o_dl : option N * option N;     (* deadline (model time) the armed failover / failback timer was given,
+                                     as the implementation records it (failoverTime / failbackTime) *)
   o_cb : option role;             (* the role-change callback was entered with this newRole *)
   o_res : res
 }.
@@ -189,7 +191,7 @@ Definition is_some {A} (o : option A) : bool := match o with Some _ => true | No
 
 Definition observe (s : state) (evs : list fevent) (hev : N) (cb : option role) (r : res) : out :=
   mkOut (role_ s) (st s) (n_init s, n_comp s, n_canc s, n_fb s) evs
-        (is_some (fo s)) (is_some (fb s)) (fo_z s) (fb_z s) (healthy s) (h_cf s, h_cs s) hev cb r.
+        (is_some (fo s)) (is_some (fb s)) (fo_z s) (fb_z s) (healthy s) (h_cf s, h_cs s) hev (fo s, fb s) cb r.
 
 (* recordFailure: wasHealthy && ConsecutiveFailures (after the increment) >= FailureThreshold *)
 Definition goes_down (c : config) (s : state) : bool :=
@@ -310,6 +312,8 @@ Definition res_eqb (a b : res) : bool :=
   | RForce x, RForce y | RFire x, RFire y => Bool.eqb x y
   | _, _ => false
   end.
+Definition on_eqb (a b : option N) : bool :=
+  match a, b with None, None => true | Some x, Some y => x =? y | _, _ => false end.
 Definition orole_eqb (a b : option role) : bool :=
   match a, b with None, None => true | Some x, Some y => role_eqb x y | _, _ => false end.
 Definition stats_eqb (a b : N * N * N * N) : bool :=
@@ -320,4 +324,5 @@ Definition out_eqb (a b : out) : bool :=
   && list_eqb fevent_eqb (o_evs a) (o_evs b) && Bool.eqb (o_fo a) (o_fo b) && Bool.eqb (o_fb a) (o_fb b)
   && (o_foz a =? o_foz b) && (o_fbz a =? o_fbz b) && Bool.eqb (o_healthy a) (o_healthy b)
   && (fst (o_hc a) =? fst (o_hc b)) && (snd (o_hc a) =? snd (o_hc b)) && (o_hev a =? o_hev b)
+  && on_eqb (fst (o_dl a)) (fst (o_dl b)) && on_eqb (snd (o_dl a)) (snd (o_dl b))
   && orole_eqb (o_cb a) (o_cb b) && res_eqb (o_res a) (o_res b).
